@@ -1,13 +1,12 @@
 #!/usr/bin/env python3
 """tools/claims_from_reports.py [--write] — take the LAST fenced json block with technique/text/note from every docs/reports/Cxx.md
-(the builders keep their current claim there) and show / write the differences to tools/claims.json. C06 and C11 (coordinator's) are skipped."""
+(the builders keep their current claim there) and show / write the differences to tools/claims.json. (C06 and C11 were skipped
+while the coordinator owned them; since the second session they have builders and reports like the others.)"""
 import json, os, re, sys
 HERE = os.path.dirname(os.path.dirname(os.path.abspath(__file__)))
 claims = json.load(open(os.path.join(HERE, "tools", "claims.json")))
 changed = []
 for pid in sorted(claims["claimed"]):
-    if pid in ("C06", "C11"):
-        continue
     path = os.path.join(HERE, "docs", "reports", pid + ".md")
     if not os.path.exists(path):
         continue
